@@ -8,7 +8,9 @@ independent additive, order-free reference renderer.  Because every ordered
 table is enumerated and the reference does not depend on the row order, row
 order invariance and additivity over concatenation are decided by the same
 comparison.  Plus: PSFPhotometry / IterativePSFPhotometry model and residual
-images against the reference rendering of their result tables, and
+images against the reference rendering of their result tables (full product of
+mode x local-background source x grouper x first-iteration source x scene, with
+several fitting iterations and a different local background per source), and
 ``make_psf_model_image`` against ``make_model_image`` on its returned table.
 """
 import itertools
@@ -29,13 +31,27 @@ RULE = ('full product: every ordered table of 1..3 rows (quick: 3-row tables for
         '{(5,5), (4,6), scalar 5, per-row 2-D column, per-row 1-D column, bounding box} x local_bkg column {absent, '
         'present} x discretize_method {center, interp, oversample(3)} on a 9x11 and a 1x5 image. A table is '
         'non-trivial when at least one row overlaps the image and at least one row is clipped by the image edge or '
-        'does not overlap at all. Distinct by construction (product indices).')
+        'does not overlap at all. Distinct by construction (product indices). PSF-photometry images: PSFPhotometry '
+        'over {PRF, ImagePSF, unit-ful data} x local background from {per-row init column, LocalBackground estimator '
+        'on a sloping background} x {no grouper, grouper whose group order differs from the table order}; '
+        'IterativePSFPhotometry over scene {A: 1 bright+faint pair + 1 star, B: 2 pairs + 2 stars} x background '
+        '{flat, sloping} x local background {none, LocalBackground estimator} x mode {new, all} x grouper {none, '
+        'SourceGrouper} (mode all needs a grouper) x first iteration from {finder, init table with a local_bkg '
+        'column}; each x output shape {data shape, 5 px smaller} x psf_shape {bounding box, 5, (5,7), (4,6)} x '
+        'include_localbkg {False, True}, expected image rebuilt from the PUBLIC results table (row by row: fitted '
+        'parameters + that row\'s local_bkg) and residual == data - model image bit-exactly. An iterative case is '
+        'non-trivial when >= 2 iterations fitted sources (counters in the evidence say how many configurations '
+        'have different source counts per iteration and a different local_bkg for every source).')
 ASSUMPTIONS = ['astropy/photutils model evaluation (model(x, y)), Table/QTable, units are trusted; the discretisation '
                'modes interp/oversample are re-derived from their documented definitions',
                'the window of a row is the astropy overlap_slices convention [ceil(p - n/2), ceil(p - n/2) + n) '
                'clipped to the image (documented definition of "centred" for even sizes / half-pixel positions)',
                'a unit-ful model with NO row overlapping the image: whether the all-zero image carries the unit is '
-               'left open (nothing is rendered); required as soon as one row overlaps']
+               'left open (nothing is rendered); required as soon as one row overlaps',
+               'PSF photometry images: the public results table (x_fit, y_fit, flux_fit, local_bkg, in table order) is '
+               'the statement of which sources with which local backgrounds were fitted; DAOStarFinder, SourceGrouper '
+               'and LocalBackground only shape the scenes (their outputs are read from the results table, never '
+               'recomputed)']
 
 EPS = np.finfo(float).eps
 
@@ -308,7 +324,8 @@ def plan(tier, seed):
     units.append({'kind': 'psfphot', 'which': 'prf'})
     units.append({'kind': 'psfphot', 'which': 'imagepsf'})
     units.append({'kind': 'psfphot', 'which': 'units'})
-    units.append({'kind': 'iterative'})
+    for j in range(4):
+        units.append({'kind': 'iterative', 'part': [j, 4]})
     units.append({'kind': 'psfmodelimage'})
     return units
 
@@ -327,7 +344,7 @@ def run_unit(unit, tier, seed):
     elif unit['kind'] == 'psfphot':
         run_psfphot(acc, unit['which'], seed)
     elif unit['kind'] == 'iterative':
-        run_iterative(acc, seed)
+        run_iterative(acc, seed, unit.get('part'))
     else:
         run_psfmodelimage(acc, seed)
     return acc
@@ -362,7 +379,23 @@ def ref_render(shape, model, xs, ys, fs, lbs, mshape, names=('x_0', 'y_0', 'flux
 PSF_SHAPES = (None, 5, (5, 7), (4, 6))
 
 
-def _scene(which, seed):
+PP_WHICH = ('prf', 'imagepsf', 'units')
+PP_LBSRC = ('init-column', 'estimator')
+PP_GROUPER = ('none', 'grouper')
+
+
+def psfphot_configs():
+    for which in PP_WHICH:
+        for lbsrc in PP_LBSRC:
+            for grp in PP_GROUPER:
+                yield {'which': which, 'lbsrc': lbsrc, 'grouper': grp}
+
+
+def _scene(which, lbsrc, seed):
+    """Four stars on 15x17; rows 0 and 2 of the init table are 3.6 px apart (one group with SourceGrouper(4)) while
+    row 1 lies between them in table order: group order != table order.  lbsrc 'init-column': per-row local_bkg
+    given by the user; 'estimator': no column, a LocalBackground estimator on a sloping background (a different
+    value for every source)."""
     from astropy.table import Table
     from photutils.psf import CircularGaussianPRF
     rng = np.random.default_rng(seed + 18)
@@ -370,15 +403,23 @@ def _scene(which, seed):
         psf = make_model('imagepsf')
     else:
         psf = CircularGaussianPRF(fwhm=2.5)
-    xs, ys, fs = [8.2, 1.3, 13.6], [7.4, 7.8, 1.2], [100.0, 80.0, 60.0]
-    img, _ = ref_render((15, 17), psf, xs, ys, fs, [0.7, 0.7, 0.7], (9, 9))
+    xs, ys, fs = [8.2, 1.3, 10.6, 13.6], [7.4, 7.8, 9.0, 1.2], [100.0, 80.0, 70.0, 60.0]
+    img, _ = ref_render((15, 17), psf, xs, ys, fs, [0.7] * 4, (9, 9))
     img = img + 0.01 * rng.random(img.shape)
-    init = Table({'x': [8.0, 1.0, 14.0], 'y': [7.0, 8.0, 1.0], 'flux': [90.0, 70.0, 50.0], 'local_bkg': [0.7, 0.3, 0.5]})
+    init = Table({'x': [8.0, 1.0, 11.0, 14.0], 'y': [7.0, 8.0, 9.0, 1.0], 'flux': [90.0, 70.0, 60.0, 50.0]})
+    if lbsrc == 'init-column':
+        init['local_bkg'] = [0.7, 0.3, 0.6, 0.5]
+    else:
+        yy, xx = np.mgrid[0:15, 0:17]
+        img = img + 0.08 * xx + 0.05 * yy
     return psf, img, init
 
 
-def _check_images(acc, obj, results, psf, data_forms, tag, localbkg_col='local_bkg'):
-    """obj: PSFPhotometry / IterativePSFPhotometry after a call."""
+def _check_images(acc, obj, results, psf, data_forms, tag, localbkg_col='local_bkg', base_case=None, shape=(15, 17),
+                  nontrivial=True):
+    """obj: PSFPhotometry / IterativePSFPhotometry after a call.  The expected image is rebuilt from the PUBLIC
+    results table only: rows in table order, model evaluated with that row's fitted parameters on the psf_shape
+    window, plus that row's ``local_bkg``."""
     import astropy.units as u
     from astropy.nddata import NDData
     xs = np.asarray(results['x_fit'], float)
@@ -387,11 +428,12 @@ def _check_images(acc, obj, results, psf, data_forms, tag, localbkg_col='local_b
     fs = np.asarray(getattr(fs, 'value', fs), float)
     lbs = results[localbkg_col]
     lbs = np.asarray(getattr(lbs, 'value', lbs), float)
-    for out_shape in ((15, 17), (10, 12)):
+    shape = tuple(shape)
+    for out_shape in (shape, (shape[0] - 5, shape[1] - 5)):
         for ps in PSF_SHAPES:
             for inc in (False, True):
-                case = {'kind': tag, 'out_shape': list(out_shape), 'psf_shape': ps, 'include_localbkg': inc}
-                acc.case(nontrivial=True, sample=case if acc.evaluations % 7 == 0 else None)
+                case = dict(base_case or {'kind': tag}, out_shape=list(out_shape), psf_shape=ps, include_localbkg=inc)
+                acc.case(nontrivial=nontrivial, sample=case if acc.evaluations % 7 == 0 else None)
                 user_model = getattr(obj, 'psf_model', None) or obj._psfphot.psf_model
                 snap_model = digest(user_model)
                 try:
@@ -412,11 +454,11 @@ def _check_images(acc, obj, results, psf, data_forms, tag, localbkg_col='local_b
                     acc.violation('psfphot-model-image', f'{tag}:psf_shape={"bbox" if ps is None else "given"}:localbkg={inc}',
                                   case, float(np.abs(val - ref).max()) if val.shape == ref.shape else val.shape, 0.0,
                                   'model image != superposition of the fit models (+ local_bkg) on their psf_shape windows')
-                if out_shape != (15, 17):
+                if out_shape != shape:
                     continue
                 for fname, data in data_forms.items():
                     case2 = dict(case, data_form=fname)
-                    acc.case(nontrivial=True)
+                    acc.case(nontrivial=nontrivial)
                     snap = digest(data)
                     try:
                         with warnings.catch_warnings():
@@ -449,50 +491,144 @@ def _check_images(acc, obj, results, psf, data_forms, tag, localbkg_col='local_b
                                       'residual image != data - model image')
 
 
-def run_psfphot(acc, which, seed):
+def run_psfphot_config(acc, cfg, seed):
     import astropy.units as u
     from astropy.nddata import NDData, StdDevUncertainty
     from astropy.table import QTable
-    from photutils.psf import PSFPhotometry
-    psf, img, init = _scene(which, seed)
-    ph = PSFPhotometry(psf.copy(), (5, 5), aperture_radius=3)     # the reference keeps its own pristine model
-    if which == 'units':
-        initq = QTable({'x': init['x'], 'y': init['y'], 'flux': np.array(init['flux']) * u.Jy,
-                        'local_bkg': np.array(init['local_bkg']) * u.Jy})
-        with warnings.catch_warnings():
-            warnings.simplefilter('ignore')
-            res = ph(img * u.Jy, init_params=initq)
-        forms = {'quantity': img * u.Jy, 'nddata_unit': NDData(img.copy(), unit=u.Jy)}
-    else:
-        with warnings.catch_warnings():
-            warnings.simplefilter('ignore')
-            res = ph(img, init_params=init)
-        forms = {'ndarray': img.copy(),
-                 'nddata': NDData(img.copy()),
-                 'nddata_mask_unc': NDData(img.copy(), mask=img > 20, uncertainty=StdDevUncertainty(np.ones(img.shape)))}
-    _check_images(acc, ph, res, psf, forms, f'psfphot-{which}')
+    from photutils.background import LocalBackground, MedianBackground
+    from photutils.psf import PSFPhotometry, SourceGrouper
+    which = cfg['which']
+    psf, img, init = _scene(which, cfg['lbsrc'], seed)
+    # the reference keeps its own pristine model
+    ph = PSFPhotometry(psf.copy(), (5, 5), aperture_radius=3,
+                       grouper=SourceGrouper(4.0) if cfg['grouper'] == 'grouper' else None,
+                       localbkg_estimator=(LocalBackground(3.5, 6.5, MedianBackground())
+                                           if cfg['lbsrc'] == 'estimator' else None))
+    base = dict(cfg, kind='psfphot')
+    try:
+        if which == 'units':
+            initq = QTable({'x': init['x'], 'y': init['y'], 'flux': np.array(init['flux']) * u.Jy})
+            if 'local_bkg' in init.colnames:
+                initq['local_bkg'] = np.array(init['local_bkg']) * u.Jy
+            with warnings.catch_warnings():
+                warnings.simplefilter('ignore')
+                res = ph(img * u.Jy, init_params=initq)
+            forms = {'quantity': img * u.Jy, 'nddata_unit': NDData(img.copy(), unit=u.Jy)}
+        else:
+            with warnings.catch_warnings():
+                warnings.simplefilter('ignore')
+                res = ph(img, init_params=init)
+            forms = {'ndarray': img.copy(),
+                     'nddata': NDData(img.copy()),
+                     'nddata_mask_unc': NDData(img.copy(), mask=img > 20, uncertainty=StdDevUncertainty(np.ones(img.shape)))}
+    except Exception as e:
+        acc.case(nontrivial=False)
+        acc.violation('psfphot-call-raises', f'{which}:{type(e).__name__}', base, repr(e), 'a results table')
+        return
+    if cfg['grouper'] == 'grouper':
+        gid = [int(g) for g in res['group_id']]
+        if not (gid[0] == gid[2] and gid[1] != gid[0]):
+            raise RuntimeError(f'psfphot scene: rows 0 and 2 are expected to form a group around row 1, got {gid}')
+    lb = np.asarray(getattr(res['local_bkg'], 'value', res['local_bkg']), float)
+    acc.counters['psfphot_configs'] += 1
+    acc.counters['psfphot_configs_with_distinct_local_bkg_per_source'] += int(len(set(lb.tolist())) == len(lb))
+    _check_images(acc, ph, res, psf, forms, f'psfphot-{which}', base_case=base)
 
 
-def run_iterative(acc, seed):
-    from photutils.detection import DAOStarFinder
-    from photutils.psf import CircularGaussianPRF, IterativePSFPhotometry, SourceGrouper
+def run_psfphot(acc, which, seed):
+    for cfg in psfphot_configs():
+        if cfg['which'] == which:
+            run_psfphot_config(acc, cfg, seed)
+
+
+# IterativePSFPhotometry: full product of the configuration axes that decide WHICH rows and WHICH local backgrounds the
+# model image is assembled from (per-iteration tables in mode 'new', the last iteration in mode 'all')
+IT_SCENES = ('A', 'B')
+IT_BKG = ('flat', 'slope')
+IT_LOCALBKG = ('none', 'estimator')
+IT_MODES = ('new', 'all')
+IT_GROUPER = ('none', 'grouper')
+IT_INIT = ('finder', 'init+finder')
+
+
+def iterative_configs():
+    for sc in IT_SCENES:
+        for bk in IT_BKG:
+            for lb in IT_LOCALBKG:
+                for mode in IT_MODES:
+                    for grp in IT_GROUPER:
+                        if mode == 'all' and grp == 'none':
+                            continue        # documented ValueError: mode 'all' requires a grouper
+                        for init in IT_INIT:
+                            yield {'scene': sc, 'bkg': bk, 'localbkg': lb, 'mode': mode, 'grouper': grp, 'init': init}
+
+
+def _iter_scene(sc, bk, seed):
+    """A: 15x17, bright star + faint close companion + isolated star; B: 19x23, two such pairs + two isolated stars.
+    The companions are found only after their bright neighbour has been subtracted (second iteration).
+    'slope': a linear background so that a local-background estimator returns a different value for every source."""
+    from photutils.psf import CircularGaussianPRF
     psf = CircularGaussianPRF(fwhm=2.5)
-    xs, ys, fs = [8.2, 10.9, 3.1], [7.4, 8.6, 2.9], [400.0, 40.0, 150.0]
-    img, _ = ref_render((15, 17), psf, xs, ys, fs, [0.0] * 3, (11, 11))
+    if sc == 'A':
+        shape = (15, 17)
+        xs, ys, fs = [8.2, 10.9, 3.1], [7.4, 8.6, 2.9], [400.0, 40.0, 150.0]
+        init = ([8.0, 3.0], [7.0, 3.0], [350.0, 120.0], [0.7, 0.3])
+    else:
+        shape = (19, 23)
+        xs, ys = [6.2, 8.9, 16.3, 18.6, 4.1, 12.4], [5.4, 6.7, 12.8, 14.3, 14.6, 3.2]
+        fs = [400.0, 45.0, 300.0, 40.0, 200.0, 250.0]
+        init = ([6.0, 16.0, 12.0], [5.0, 13.0, 3.0], [350.0, 280.0, 200.0], [0.7, 0.3, 0.5])
+    img, _ = ref_render(shape, psf, xs, ys, fs, [0.0] * len(xs), (11, 11))
     rng = np.random.default_rng(seed + 181)
-    img = img + 0.01 * rng.random(img.shape)
-    for mode in ('new', 'all'):
-        finder = DAOStarFinder(2.0, 2.5)
-        it = IterativePSFPhotometry(psf.copy(), (5, 5), finder=finder, grouper=SourceGrouper(4.0), aperture_radius=3,
-                                    maxiters=3, mode=mode)
+    img = img + 0.01 * rng.random(shape)
+    if bk == 'slope':
+        yy, xx = np.mgrid[0:shape[0], 0:shape[1]]
+        img = img + 4.0 + 0.12 * xx + 0.05 * yy
+    return psf, img, init
+
+
+def run_iterative_config(acc, cfg, seed):
+    from astropy.table import Table
+    from photutils.background import LocalBackground, MedianBackground
+    from photutils.detection import DAOStarFinder
+    from photutils.psf import IterativePSFPhotometry, SourceGrouper
+    psf, img, init = _iter_scene(cfg['scene'], cfg['bkg'], seed)
+    finder = DAOStarFinder(2.0, 2.5, exclude_border=True)
+    it = IterativePSFPhotometry(psf.copy(), (5, 5), finder=finder,
+                                grouper=SourceGrouper(4.0) if cfg['grouper'] == 'grouper' else None,
+                                localbkg_estimator=(LocalBackground(3.5, 6.5, MedianBackground())
+                                                    if cfg['localbkg'] == 'estimator' else None),
+                                aperture_radius=3, maxiters=3, mode=cfg['mode'])
+    kw = {}
+    if cfg['init'] != 'finder':
+        # first iteration from a user table WITH a local_bkg column (documented: used instead of the estimator)
+        kw['init_params'] = Table({'x': init[0], 'y': init[1], 'flux': init[2], 'local_bkg': init[3]})
+    base = dict(cfg, kind='iterative')
+    try:
         with warnings.catch_warnings():
             warnings.simplefilter('ignore')
-            res = it(img)
-        if res is None or len(res) < 2:
-            raise RuntimeError('iterative scene found fewer than two sources')
-        acc.counters[f'iterative_{mode}_sources'] = len(res)
-        acc.counters[f'iterative_{mode}_iterations'] = len(it.fit_results)
-        _check_images(acc, it, res, psf, {'ndarray': img.copy()}, f'iterative-{mode}')
+            res = it(img, **kw)
+    except Exception as e:
+        acc.case(nontrivial=False)
+        acc.violation('iterative-call-raises', type(e).__name__, base, repr(e), 'a results table')
+        return
+    if res is None or len(res) < 2:
+        raise RuntimeError(f'iterative scene found fewer than two sources: {cfg}')
+    counts = [len(r._fit_model_params) for r in it.fit_results]     # evidence only (never used by the oracle)
+    lb = np.asarray(getattr(res['local_bkg'], 'value', res['local_bkg']), float)
+    acc.counters[f'iterative_{cfg["mode"]}_configs'] += 1
+    acc.counters[f'iterative_{cfg["mode"]}_configs_with>=2_fitting_iterations'] += int(len(counts) >= 2)
+    acc.counters[f'iterative_{cfg["mode"]}_configs_with_different_counts_per_iteration'] += int(len(set(counts)) >= 2)
+    acc.counters[f'iterative_{cfg["mode"]}_configs_with_distinct_local_bkg_per_source'] += int(len(set(lb.tolist())) == len(lb))
+    tag = f'iterative-{cfg["mode"]}:localbkg={"distinct" if len(set(lb.tolist())) > 1 else "uniform"}'
+    _check_images(acc, it, res, psf, {'ndarray': img.copy()}, tag, base_case=base, shape=img.shape,
+                  nontrivial=len(counts) >= 2)
+
+
+def run_iterative(acc, seed, part=None):
+    for j, cfg in enumerate(iterative_configs()):
+        if part is None or j % part[1] == part[0]:
+            run_iterative_config(acc, cfg, seed)
 
 
 def run_psfmodelimage(acc, seed):
@@ -537,10 +673,10 @@ def replay(case, seed):
         from photutils.datasets import make_model_image
         cfg = Config(case['image'], case['model'], case['model_shape'], case['local_bkg'], case['discretize'])
         check_table(acc, cfg, tuple(case['rows']), make_model_image)
-    elif kind.startswith('psfphot-'):
-        run_psfphot(acc, kind.split('-', 1)[1], seed)
-    elif kind.startswith('iterative'):
-        run_iterative(acc, seed)
+    elif kind == 'psfphot':
+        run_psfphot_config(acc, {k: case[k] for k in ('which', 'lbsrc', 'grouper')}, seed)
+    elif kind == 'iterative':
+        run_iterative_config(acc, {k: case[k] for k in ('scene', 'bkg', 'localbkg', 'mode', 'grouper', 'init')}, seed)
     else:
         run_psfmodelimage(acc, seed)
     return acc
@@ -556,5 +692,11 @@ def describe(tier, seed):
                          'tables per configuration': {'1..2 rows': '9+81 (9x11) / 6+36 (1x5)',
                                                       '1..3 rows': '819 (9x11) / 258 (1x5)'},
                          'psf photometry': {'psf_shape': [None, 5, [5, 7], [4, 6]], 'include_localbkg': [False, True],
-                                            'output shapes': [[15, 17], [10, 12]],
+                                            'output shapes': 'data shape (15x17; iterative scene B: 19x23) and 5 px smaller',
+                                            'PSFPhotometry configurations': list(psfphot_configs()),
+                                            'IterativePSFPhotometry configurations': {
+                                                'scene': list(IT_SCENES), 'background': list(IT_BKG),
+                                                'localbkg_estimator': list(IT_LOCALBKG), 'mode': list(IT_MODES),
+                                                'grouper': list(IT_GROUPER), 'first iteration': list(IT_INIT),
+                                                'count': len(list(iterative_configs()))},
                                             'data forms': ['ndarray', 'NDData', 'NDData+mask+uncertainty', 'Quantity', 'NDData with unit']}}}
